@@ -1252,6 +1252,28 @@ pub fn check_c05(obs: &Observation) -> V {
             }
         }
     }
+    // the map lane `om` of the pair agent: values with the empty encoding (None)
+    if obs.cfg.extra == "pair-agent" && obs.cfg.restart {
+        if let Some(id) = id_of("om") {
+            let restored = obs.truth2.iter().find_map(|(_, t)| if let Truth::Custom(c) = t { c.strip_prefix("start:om=").map(|x| x.to_string()) } else { None });
+            if let Some(restored) = restored {
+                let mut want: Vec<(i32, String)> = state
+                    .maps
+                    .get(&id)
+                    .map(|m| m.iter().filter_map(|(k, v)| Some((std::str::from_utf8(k).ok()?.trim().parse().ok()?, String::from_utf8_lossy(v).trim().to_string()))).collect())
+                    .unwrap_or_default();
+                want.sort();
+                let want: Vec<String> = want.iter().map(|(k, v)| format!("{}:{}", k, v)).collect();
+                let want = want.join(",");
+                if restored != want {
+                    add(
+                        "as: restarted map lane with optional values does not hold the entries implied by the operations handed to the store".into(),
+                        format!("lane om restarted with {:?}; the store holds {:?} (\"k:\" = None under k)", restored, want),
+                    );
+                }
+            }
+        }
+    }
     out
 }
 
